@@ -1053,7 +1053,11 @@ def _run_case(ctx, state):
     # ---- side scenarios ---------------------------------------------------------------------------------
     if rng.random() < 0.3:
         state["step"] = "from_mps"
-        scenario_from_mps(ctx, gm, qntot)
+        from rv.case import CaseAbort
+        try:
+            scenario_from_mps(ctx, gm, qntot)
+        except CaseAbort:
+            pass        # the chain constructor refused the sector (recorded); the tree history is still run
     if gm.dim <= 24 and not any(b.multi_dof for b in gm.basis) and rng.random() < 0.7:
         state["step"] = "apply(aux-space-partial-operator)"
         scenario_aux_space(ctx, world, gm, tree, qntot)
